@@ -130,6 +130,11 @@ pub fn gen_case(seed: u64, case: u64, tier: &str) -> Cfg {
         run.num_tune = 10; run.num_draws = 0;
         return Cfg { run, chunk: 7, backend: [0u8, 1, 2][(case - 2) as usize], every: 1_000_000 };
     }
+    // corpus: the async writer over the slow store with flushes exactly at chunk boundaries (chunk 2, flush after every draw; chunk 1)
+    if case == 7 || case == 8 {
+        run.num_tune = 4; run.num_draws = 4;
+        return Cfg { run, chunk: if case == 7 { 2 } else { 1 }, backend: 3, every: 1 };
+    }
     Cfg { run, chunk, backend: if tier == "thorough" { if case % 12 == 5 { 3 } else { (case % 3) as u8 } } else { match case % 6 { 0 => 1, 1 => 2, 3 => 3, _ => 0 } }, every: if case % 8 == 5 { 1_000_000 } else if case % 4 == 3 { 3 } else { 1 } }
 }
 
